@@ -4,11 +4,13 @@ import Driver.RangeEng
 import Driver.IndexEng
 import Driver.TokEng
 import Driver.MemEng
+import Driver.HistEng
 /-! `rlbox_model_driver`: one operation per line on stdin, one result per line on stdout. -/
 open Driver
 
 structure St where
   tok : TokEng.St := {}
+  hist : HistEng.St := {}
 
 def firstSome (fs : List (List String → Option String)) (t : List String) : Option String :=
   fs.foldl (fun acc f => match acc with | some r => some r | none => f t) none
@@ -20,6 +22,9 @@ def stepLine (s : St) (line : String) : St × String :=
   | none =>
   match TokEng.step s.tok t with
   | some (tk, r) => ({ s with tok := tk }, r)
+  | none =>
+  match HistEng.step s.hist t with
+  | some (h, r) => ({ s with hist := h }, r)
   | none => (s, "badop")
 
 partial def loop (h : IO.FS.Stream) (out : IO.FS.Stream) (s : St) : IO Unit := do
